@@ -30,6 +30,8 @@ pub struct GenCfg {
     pub big_twins: bool,
     /// Directory entries whose names are not valid UTF-8.
     pub raw_names: bool,
+    /// Numeric owners or groups that have no name on this machine (Conserve records names).
+    pub unnamed_owners: bool,
 }
 
 impl GenCfg {
@@ -53,6 +55,7 @@ impl GenCfg {
             max_file: 16 * 1024,
             big_twins: r.chance(1, 16),
             raw_names: r.chance(1, 6),
+            unnamed_owners: false,
         }
     }
 }
@@ -188,7 +191,9 @@ impl Gen {
     }
 
     pub fn owner(&mut self, cfg: &GenCfg) -> (u32, u32) {
-        if cfg.owners && self.r.chance(1, 2) {
+        if cfg.owners && cfg.unnamed_owners && self.r.chance(1, 3) {
+            (*self.r.pick(&[0u32, 1, 54_321]), *self.r.pick(&[0u32, 2, 54_321, 54_322]))
+        } else if cfg.owners && self.r.chance(1, 2) {
             (self.r.below(4) as u32, self.r.below(4) as u32)
         } else {
             (0, 0)
@@ -419,6 +424,13 @@ impl Gen {
                 }
             }
         }
+        if cfg.symlinks && self.r.chance(1, 10) {
+            for e in self.dir_to_symlink_scaffold(&m) {
+                if m.apply(&e) {
+                    out.push(e);
+                }
+            }
+        }
         if cfg.raw_names && self.r.chance(1, 4) {
             let dirs = m.dirs();
             let dir = self.r.pick(&dirs).clone();
@@ -511,6 +523,35 @@ impl Gen {
             out.push(EditOp::Put { path: join_apath(&d, &name), node: self.file_node(cfg, Some((size, cseed, period))) });
         }
         out
+    }
+
+    /// A populated directory is replaced by a symlink that resolves to another existing
+    /// directory of the tree (relative target, correct from the link's own directory). A
+    /// backup interrupted after it has recorded the link is then stitched onto an older
+    /// version that still holds entries below that path.
+    pub fn dir_to_symlink_scaffold(&mut self, model: &TreeModel) -> Vec<EditOp> {
+        let dirs = model.dirs();
+        let victims: Vec<&String> = dirs.iter().filter(|d| d.as_str() != "/" && model.subtree_keys(d).len() > 1).collect();
+        if victims.is_empty() {
+            return vec![];
+        }
+        let victim = (*self.r.pick(&victims)).clone();
+        let others: Vec<&String> = dirs
+            .iter()
+            .filter(|d| d.as_str() != "/" && **d != victim && !d.starts_with(&format!("{victim}/")) && !victim.starts_with(&format!("{d}/")))
+            .collect();
+        if others.is_empty() {
+            return vec![];
+        }
+        let goal = (*self.r.pick(&others)).clone();
+        // relative path from the victim's parent directory to the goal
+        let depth = victim.matches('/').count() - 1;
+        let target = format!("{}{}", "../".repeat(depth), &goal[1..]);
+        let meta = model.nodes[&victim].meta;
+        vec![
+            EditOp::Remove { path: victim.clone() },
+            EditOp::Put { path: victim, node: TNode { kind: NodeKind::Symlink { target }, meta } },
+        ]
     }
 
     /// Sibling directories whose names extend one another with a byte below or above '/',
